@@ -27,6 +27,7 @@ import (
 
 	"github.com/kubeshark/base/pkg/api"
 	"github.com/kubeshark/base/pkg/extensions/kafka"
+	stg "verif/harness/stage"
 
 	"verif/harness/kobs"
 	"verif/harness/kty"
@@ -226,16 +227,17 @@ type ItemOut struct {
 }
 
 type StageOut struct {
-	Ok           bool   `json:"ok"`
-	Panic        string `json:"panic,omitempty"`
-	Where        string `json:"where,omitempty"`
-	Summary      string `json:"summary"`
-	SummaryQuery string `json:"summaryQuery"`
-	Method       string `json:"method"`
-	MethodQuery  string `json:"methodQuery"`
-	RepBytes     int    `json:"repBytes"`
-	EntryBytes   int    `json:"entryBytes"`
-	Topics       []string `json:"topics"`
+	Ok           bool        `json:"ok"`
+	Panic        string      `json:"panic,omitempty"`
+	Where        string      `json:"where,omitempty"`
+	Summary      string      `json:"summary"`
+	SummaryQuery string      `json:"summaryQuery"`
+	Method       string      `json:"method"`
+	MethodQuery  string      `json:"methodQuery"`
+	RepBytes     int         `json:"repBytes"`
+	EntryBytes   int         `json:"entryBytes"`
+	Topics       []string    `json:"topics"`
+	C16          *stg.Result `json:"c16,omitempty"`
 }
 
 type RunOut struct {
@@ -342,7 +344,12 @@ func runMain(mode string) {
 		}
 		if mode == "stage" || mode == "cost" {
 			for _, it := range r.Items {
-				out.Stages = append(out.Stages, stages(it))
+				so := stages(it)
+				if mode == "stage" {
+					sr := stg.Run(&api.Extension{Dissector: kafka.NewDissector()}, it, false)
+					so.C16 = &sr
+				}
+				out.Stages = append(out.Stages, so)
 			}
 		}
 		if mode == "cost" {
